@@ -107,4 +107,14 @@ def irafMinSep (given : Option Rat) (fwhm minsepFwhm : Rat) : Option Rat :=
   | some s => if s < 0 then none else some s
   | none => some (((max 2 (fwhm * minsepFwhm + 1 / 2).floor : Int)) : Rat)
 
+/-! ### the pixel a supplied position (`xycoords`) belongs to -/
+
+/-- `np.ceil(x - 0.5).astype(int)`: the pixel whose centre is nearest, the lower one on a tie (ceil a = -floor (-a)) -/
+def xyPixel (x : Rat) : Int := -(-(x - 1 / 2)).floor
+
+/-- `np.round` (half to even), for contrast: NOT what the finders use -/
+def roundHalfEven (x : Rat) : Int :=
+  let f := x.floor
+  if x - f < 1 / 2 then f else if x - f > 1 / 2 then f + 1 else if f % 2 = 0 then f else f + 1
+
 end PhotVerif.Model.Peaks
